@@ -28,7 +28,7 @@ pub fn def() -> PropDef {
 #[derive(Clone, Debug, PartialEq, Eq, Hash, Serialize, Deserialize)]
 pub enum Action {
     Construct(Eng),
-    /// the same round `repeat` times (fresh object each time); every repetition must give the same result
+    /// the same round `repeat` times on the same object; every repetition must give the same result
     Round { id: u32, dec: bool, kind: Kind, eng: Eng, cfg: Cfg, seed: u64, repeat: u8, handover: Option<(u8, u16)> },
 }
 
@@ -89,7 +89,115 @@ fn parts() -> Vec<Box<dyn PartDyn>> {
     vec![
         Box::new(GenPart { name: "programs", quick: 320, thorough: 6_000, shrink_iters: 60, strat: strategy, check }),
         Box::new(Hammer),
+        Box::new(Tsan),
     ]
+}
+
+// ----------------------------------------------------------------------
+// thorough only: the same generated programs with the child built under ThreadSanitizer
+// (nightly, -Zbuild-std); a reported data race makes the child exit with code 66
+
+struct Tsan;
+
+static TSAN_BIN: std::sync::OnceLock<Option<std::path::PathBuf>> = std::sync::OnceLock::new();
+
+fn harness_dir() -> Option<std::path::PathBuf> {
+    let exe = std::env::current_exe().ok()?;
+    // <harness>/target/<profile>/rsv
+    Some(exe.parent()?.parent()?.parent()?.to_path_buf())
+}
+
+fn build_tsan() -> Result<std::path::PathBuf, String> {
+    let h = harness_dir().ok_or("cannot locate the harness directory")?;
+    let out = Command::new("cargo")
+        .args(["+nightly", "build", "-Zbuild-std", "--target", "x86_64-unknown-linux-gnu", "--release", "-p", "rsv", "--offline", "--target-dir"])
+        .arg(h.join("target/tsan"))
+        .env("RUSTFLAGS", "-Zsanitizer=thread")
+        .env("CARGO_NET_OFFLINE", "true")
+        .current_dir(&h)
+        .output()
+        .map_err(|e| e.to_string())?;
+    let bin = h.join("target/tsan/x86_64-unknown-linux-gnu/release/rsv");
+    if out.status.success() && bin.exists() {
+        Ok(bin)
+    } else {
+        let err = String::from_utf8_lossy(&out.stderr);
+        Err(err.chars().rev().take(300).collect::<String>().chars().rev().collect())
+    }
+}
+
+fn check_tsan(p: &Program, st: &mut Stats) -> CheckResult {
+    let Some(Some(bin)) = TSAN_BIN.get() else { return Ok(()) };
+    let expected = run_sequential(p).map_err(|e| format!("reference execution of the rounds in the parent failed (each program is executed on one parent thread, but several programs run on different parent threads at once): {e}"))?;
+    match run_child(p, bin, &[("TSAN_OPTIONS", "halt_on_error=1 exitcode=66 report_signal_unsafe=0")]) {
+        ChildOutcome::Digests(got) => {
+            ensure!(got == expected, "results under ThreadSanitizer differ from sequential execution");
+        }
+        ChildOutcome::Failed(m) => {
+            if m.contains("ThreadSanitizer") {
+                fail!("ThreadSanitizer reports a problem in concurrent use of independent objects: {m}");
+            }
+            fail!("concurrent execution (ThreadSanitizer build) failed: {m}");
+        }
+        ChildOutcome::Timeout => {
+            st.count("inconclusive_watchdog", 1);
+            return Ok(());
+        }
+        ChildOutcome::Spawn(e) => return Err(Fail { sig: None, msg: format!("harness: cannot run child process: {e}") }),
+    }
+    st.classf("threads", p.threads.len());
+    st.nontrivial_case("programs_tsan", p);
+    Ok(())
+}
+
+impl PartDyn for Tsan {
+    fn name(&self) -> &'static str {
+        "programs_tsan"
+    }
+    fn run(&self, run: &mut crate::runner::Run) {
+        if run.tier != Tier::Thorough || run.failed() || std::env::var("RSV_NO_TSAN").is_ok() {
+            return;
+        }
+        match TSAN_BIN.get_or_init(|| build_tsan().map_err(|e| eprintln!("[C16] ThreadSanitizer build unavailable: {e}")).ok()) {
+            Some(_) => {}
+            None => {
+                run.extra.insert("thread_sanitizer".into(), "unavailable: build failed (the stress parts stand alone)".into());
+                return;
+            }
+        }
+        let cases = run.cases(0, 1_200);
+        // generated programs and the systematic hammer programs
+        run.explore(self.name(), cases, 20, &|| strategy(Tier::Thorough), |p, st| check_tsan(p, st));
+        let mut st = Stats::default();
+        let t0 = Instant::now();
+        let mut fail = None;
+        for &(kind, eng, dec) in &hammer_combos() {
+            let prog = hammer_program(kind, eng, dec, run.seed, 40, run.seed % 2);
+            st.evaluations += 1;
+            if let Err(f) = check_tsan(&prog, &mut st) {
+                fail = Some((prog, f.msg));
+                break;
+            }
+        }
+        run.record_part("hammer_tsan", st, false, "hammer programs under ThreadSanitizer", t0);
+        if let Some((prog, m)) = fail {
+            run.record_failure(self.name(), serde_json::to_value(&prog).unwrap(), m);
+        }
+        run.extra.insert("thread_sanitizer".into(), "ran".into());
+    }
+    fn replay(&self, case: &serde_json::Value) -> Result<(), String> {
+        let p: Program = serde_json::from_value(case.clone()).map_err(|e| e.to_string())?;
+        TSAN_BIN.get_or_init(|| build_tsan().ok());
+        let mut st = Stats::default();
+        for _ in 0..3 {
+            match crate::runner::no_panic(|| check_tsan(&p, &mut st)) {
+                Ok(Ok(())) => {}
+                Ok(Err(f)) => return Err(f.msg),
+                Err(p) => return Err(p),
+            }
+        }
+        Ok(())
+    }
 }
 
 // ----------------------------------------------------------------------
@@ -144,6 +252,39 @@ fn hammer_program(kind: Kind, eng: Eng, dec: bool, seed: u64, reps: u8, variant:
     Program { threads }
 }
 
+fn hammer_program_large(kind: Kind, eng: Eng, dec: bool, seed: u64, reps: u8) -> Program {
+    let mut rng = gen::Xs::new(seed ^ crate::runner::hash_of(&(kind, eng, dec, "large")));
+    let mut spec = |rng: &mut gen::Xs| {
+        let a = 2500 + rng.below(1500);
+        let b = 4200 + rng.below(3000);
+        let (k, r) = match kind {
+            Kind::Low => (a, b),
+            Kind::High => (b, a),
+            _ => {
+                if rng.below(2) == 0 {
+                    (a, b)
+                } else {
+                    (b, a)
+                }
+            }
+        };
+        (Cfg { k, r, b: 2 }, rng.next())
+    };
+    let (c1, s1) = spec(&mut rng);
+    let (c2, s2) = (c1, rng.next()); // same shape, different loss pattern
+    let (c3, s3) = spec(&mut rng);
+    let mut threads = Vec::new();
+    for t in 0..6u32 {
+        let (cfg, sd) = match t % 3 {
+            0 => (c1, s1),
+            1 => (c2, s2),
+            _ => (c3, s3),
+        };
+        threads.push(ThreadProg { spin: rng.below(200) as u32, actions: vec![Action::Round { id: t, dec, kind, eng, cfg, seed: sd, repeat: reps, handover: None }] });
+    }
+    Program { threads }
+}
+
 impl PartDyn for Hammer {
     fn name(&self) -> &'static str {
         "hammer"
@@ -155,11 +296,16 @@ impl PartDyn for Hammer {
         let t0 = Instant::now();
         let combos = hammer_combos();
         let variants: u64 = run.tier.pick(1, 6);
-        let reps: u8 = run.tier.pick(120, 250);
+        let reps: u8 = run.tier.pick(60, 250);
         let mut jobs = Vec::new();
         for v in 0..variants {
             for &(kind, eng, dec) in &combos {
                 jobs.push(hammer_program(kind, eng, dec, run.seed, reps, v + run.seed % 2));
+            }
+            // the same with thousands of shards (more than 8192 working positions) on the default engine:
+            // anything that only large configurations share is invisible to the small programs above
+            for (kind, dec) in [(Kind::Rs, true), (Kind::High, true), (Kind::Low, true), (Kind::Rs, false)] {
+                jobs.push(hammer_program_large(kind, Eng::Default, dec, run.seed ^ v, run.tier.pick(160, 250)));
             }
         }
         let next = std::sync::atomic::AtomicUsize::new(0);
@@ -237,6 +383,8 @@ struct Pending {
     id: u32,
     obj: Obj,
     calls: Vec<Call>,
+    /// all calls of the round (the repetitions replay the whole round even after a hand-over)
+    all_calls: std::sync::Arc<Vec<Call>>,
     /// further repetitions of the same round on fresh objects: (count, dec, kind, eng, cfg, seed)
     again: Option<(u8, bool, Kind, Eng, Cfg, u64)>,
 }
@@ -276,19 +424,19 @@ fn finish(mut p: Pending) -> Result<(u32, u64), String> {
         }
         last = out.brief();
     }
-    if let Some((n, dec, kind, eng, cfg, seed)) = p.again {
+    if let Some((n, ..)) = p.again {
+        // further repetitions of the same round on the same object (implicit reset by the dropped result)
         for rep in 1..n {
-            let mut obj = Obj::make(dec, kind, eng, cfg).map_err(|e| format!("round {}: construction failed: {e:?}", p.id))?;
             let mut l = String::new();
-            for call in &round_calls(dec, cfg, seed) {
-                let out = obj.apply(call)?;
+            for call in p.all_calls.iter() {
+                let out = p.obj.apply(call)?;
                 if !out.is_ok() {
                     return Err(format!("round {} repetition {rep}: call failed: {}", p.id, out.brief()));
                 }
                 l = out.brief();
             }
             if l != last {
-                return Err(format!("round {} repetition {rep}: the same round on a fresh object gives a different result than its first execution: {l} vs {last}", p.id));
+                return Err(format!("round {} repetition {rep}: the same round gives a different result than its first execution: {l} vs {last}", p.id));
             }
         }
     }
@@ -306,7 +454,9 @@ fn start(action: &Action) -> Result<Option<(Pending, Option<(u8, u16)>)>, String
         Action::Round { id, dec, kind, eng, cfg, seed, repeat, handover } => {
             let obj = Obj::make(*dec, *kind, *eng, *cfg).map_err(|e| format!("round {id}: construction failed: {e:?}"))?;
             let again = if *repeat > 1 { Some((*repeat, *dec, *kind, *eng, *cfg, *seed)) } else { None };
-            Ok(Some((Pending { id: *id, obj, calls: round_calls(*dec, *cfg, *seed), again }, *handover)))
+            let calls = round_calls(*dec, *cfg, *seed);
+            let all_calls = std::sync::Arc::new(if again.is_some() { calls.clone() } else { Vec::new() });
+            Ok(Some((Pending { id: *id, obj, calls, all_calls, again }, *handover)))
         }
     }
 }
@@ -482,7 +632,7 @@ fn first_tables(a: &Action) -> u8 {
 }
 
 fn check(p: &Program, st: &mut Stats) -> CheckResult {
-    let expected = run_sequential(p).map_err(|e| format!("sequential execution in the parent failed: {e}"))?;
+    let expected = run_sequential(p).map_err(|e| format!("reference execution of the rounds in the parent failed (each program is executed on one parent thread, but several programs run on different parent threads at once): {e}"))?;
     let exe = std::env::current_exe().map_err(|e| format!("harness: current_exe: {e}"))?;
     match run_child(p, &exe, &[]) {
         ChildOutcome::Digests(got) => {
